@@ -94,7 +94,9 @@ EMIT_STRIDE_B = (1024, 64)
 def core_check(pid: str, *, f_filter=None, cfgs=("A",), quick_stride=8, quick_keep=20,
                thorough_stride=1, thorough_keep=8, level="model_checking", extra=None,
                sessions_quick=0, sessions_thorough=0, run_filter=None, annotate=None, keep_b=(6, 2), overrides=None,
-               session_filter=None, prop_map=None):
+               session_filter=None, prop_map=None, traces=None, trace_flags="any"):
+    """traces = (quick, thorough) number of recorded executions of programs beyond the bounds of MC_Core that
+    are validated against ISCore by TLC (spec/TraceCore.tla)"""
     chk = Check(pid, level)
     if chk.replay:
         return replay_file(chk)
@@ -138,6 +140,9 @@ def core_check(pid: str, *, f_filter=None, cfgs=("A",), quick_stride=8, quick_ke
                         replay_runs(chk, sub, driver="session")
             finally:
                 tlc.cleanup(res)
+    if traces:
+        from .. import trace_core
+        trace_core.validate(chk, traces[0 if chk.quick else 1], flags=trace_flags)
     if extra:
         extra(chk)
     return chk
@@ -223,6 +228,27 @@ def replay_file(chk: Check):
             print("-----")
         for m in mine:
             print("MISMATCH", json.dumps(m)[:3000])
+        print("reproduced" if mine else "not reproduced")
+        return 1 if mine else 0
+    if rp.get("kind") == "trace-case":
+        from .. import trace_core
+        sub = Check(chk.pid, chk.level, argv=[])
+        sub.seed = rp.get("seed", 0)
+        trace_core.validate(sub, 0, cases=[rp["case"]])
+        print(rp["module"])
+        for v in sub.violations:
+            print("MISMATCH", json.dumps(v["sig"]), str(v["replay"].get("tlc"))[:600])
+        print("reproduced" if sub.violations else "not reproduced")
+        return 1 if sub.violations else 0
+    if rp.get("kind") == "partial-case":
+        from .. import partial_replay
+        mism, info, text, new = partial_replay.replay_one(rp["case"], rp["seed"])
+        print(text)
+        print("--- after the session")
+        print(new)
+        mine = [m for m in mism if chk.pid in m["props"]]
+        for m in mine:
+            print("MISMATCH", json.dumps(m)[:2000])
         print("reproduced" if mine else "not reproduced")
         return 1 if mine else 0
     if rp.get("kind") != "core-run":
